@@ -415,9 +415,123 @@ func checkThesauri(prop string, seg segment.Segment, want *spec.Obs, excepts []s
 	return v
 }
 
+// twinBatch is the batch with every synonym string replaced by another string of the same length
+// (same shape and, when the sections are written in the same order, the same offsets - other content).
+func twinBatch(b *spec.BatchSpec) *spec.BatchSpec {
+	nb := &spec.BatchSpec{Wide: b.Wide, VecWide: b.VecWide, SynWide: b.SynWide}
+	for _, d := range b.Docs {
+		nd := d
+		nd.Fields = nil
+		for _, f := range d.Fields {
+			nf := f
+			if f.Kind == spec.KindSyn {
+				nf.Syn = nil
+				for _, def := range f.Syn {
+					nd2 := spec.SynDef{Term: def.Term}
+					for _, x := range def.Syns {
+						y := []byte(x)
+						if len(y) > 0 {
+							y[len(y)-1] ^= 0x01
+						}
+						nd2.Syns = append(nd2.Syns, spec.B(y))
+					}
+					nf.Syn = append(nf.Syn, nd2)
+				}
+			}
+			nd.Fields = append(nd.Fields, nf)
+		}
+		nb.Docs = append(nb.Docs, nd)
+	}
+	return nb
+}
+
+// checkListAcrossSegments looks every term up in segment A and passes the resulting list as
+// preallocation for the same term in segment B (a reader walking the segments of a snapshot does
+// that); B's answer must be B's.
+func checkListAcrossSegments(prop string, a, b segment.Segment, wantB *spec.Obs) *Violation {
+	var v *Violation
+	err := drive.Safe(func() error {
+		ta, tb := a.(segment.ThesaurusSegment), b.(segment.ThesaurusSegment)
+		var names []string
+		for n := range wantB.Thes {
+			names = append(names, n)
+		}
+		sort.Strings(names)
+		for _, name := range names {
+			tha, err := ta.Thesaurus(name)
+			if err != nil {
+				return err
+			}
+			thb, err := tb.Thesaurus(name)
+			if err != nil {
+				return err
+			}
+			var terms []string
+			for t := range wantB.Thes[name] {
+				terms = append(terms, t)
+			}
+			sort.Strings(terms)
+			for _, term := range terms {
+				la, err := tha.SynonymsList([]byte(term), nil, nil)
+				if err != nil {
+					return err
+				}
+				if x, _ := la.Iterator(nil).Next(); x == nil {
+					continue
+				}
+				lb, err := thb.SynonymsList([]byte(term), nil, la)
+				if err != nil {
+					return err
+				}
+				var got []spec.SynPair
+				for it := lb.Iterator(nil); ; {
+					x, err := it.Next()
+					if err != nil {
+						return err
+					}
+					if x == nil {
+						break
+					}
+					got = append(got, spec.SynPair{Syn: x.Term(), Doc: x.Number()})
+				}
+				wp := append([]spec.SynPair(nil), wantB.Thes[name][term]...)
+				sortPairs(got)
+				sortPairs(wp)
+				if !reflect.DeepEqual(got, wp) {
+					v = violation(prop, "thes/list-recycled-across-segments", "thesaurus %q term %q looked up with a list recycled from the same lookup in another segment of the same shape: got %v, model %v", name, term, got, wp)
+					return nil
+				}
+			}
+		}
+		return nil
+	})
+	if err != nil {
+		return violation(prop, "thes/error", "%v", err)
+	}
+	return v
+}
+
 func runThesCase(c thesCase) *Violation {
 	const prop = "C12"
 	want := spec.Expect(c.Batch)
+	if len(want.Thes) > 0 && c.Batch.SynWide == nil {
+		tw := twinBatch(c.Batch)
+		sa, ca, v := openVariant(prop, c.Batch, c.ChunkMode, false)
+		if v != nil {
+			return v
+		}
+		sb, cb, v := openVariant(prop, tw, c.ChunkMode, false)
+		if v != nil {
+			ca()
+			return v
+		}
+		v = checkListAcrossSegments(prop, sa, sb, spec.Expect(tw))
+		ca()
+		cb()
+		if v != nil {
+			return v
+		}
+	}
 	for _, mmap := range []bool{false, true} {
 		seg, closeFn, v := openVariant(prop, c.Batch, c.ChunkMode, mmap)
 		if v != nil {
